@@ -23,7 +23,7 @@ import (
 
 type respPlan struct {
 	Signer      int  `json:"signer,omitempty"`       // 0 V (the identity normally claimed), 1 A (attacker), 2 no sig at all, 3 a third identity
-	Claim       int  `json:"claim,omitempty"`        // public-key param: 0 V, 1 A, 2 dropped, 3 V then A, 4 A then V, 5 V with a flipped bit
+	Claim       int  `json:"claim,omitempty"`        // public-key param: 0 V, 1 A, 2 dropped, 3 V then A, 4 A then V, 5 V with a flipped bit, 6 V's key re-encoded (another way of writing the same key, keyenc_test.go)
 	Chal        int  `json:"chal,omitempty"`         // signed challenge: 0 this request's, 1 one of an earlier call, 2 empty, 3 one char changed, 4 first of this call
 	CKey        int  `json:"ckey,omitempty"`         // signed client key: 0 the client's, 1 another identity's, 2 empty
 	HostS       int  `json:"host_signed,omitempty"`  // signed hostname: 0 request Host, 1 other host, 2 empty, 3 part omitted, 4 upper-cased
@@ -38,6 +38,7 @@ type respPlan struct {
 	// made for (bit 1 challenge-server, bit 2 client-public-key, bit 4 hostname): what an impostor
 	// does that replays a signature of an earlier session and hopes the client takes the signed
 	// context from the header instead of from its own state. An honest server sends none of them.
+	ClaimEnc  int     `json:"claim_enc,omitempty"` // Claim 6: the way V's key is written
 	Tell      int     `json:"tell,omitempty"`
 	TellFront bool    `json:"tell_front,omitempty"`
 	Ops       []hdrOp `json:"ops,omitempty"` // parameter-level operators on the finished header
@@ -86,7 +87,10 @@ func drawRespPlan(rt *rapid.T) respPlan {
 		case 0:
 			p.Signer = rapid.SampledFrom([]int{1, 1, 2, 3}).Draw(rt, "signer")
 		case 1:
-			p.Claim = rapid.IntRange(1, 5).Draw(rt, "claim")
+			p.Claim = rapid.SampledFrom([]int{1, 2, 3, 4, 5, 6, 6}).Draw(rt, "claim")
+			if p.Claim == 6 {
+				p.ClaimEnc = rapid.IntRange(1, nKeyEncs-1).Draw(rt, "claimenc")
+			}
 		case 2:
 			p.Chal = rapid.IntRange(1, 4).Draw(rt, "chal")
 		case 3:
@@ -329,6 +333,13 @@ func (e *evilServer) RoundTrip(req *http.Request) (*http.Response, error) {
 			out = []param{{"public-key", vk}, {"public-key", ak}}
 		case 4:
 			out = []param{{"public-key", ak}, {"public-key", vk}}
+		case 6:
+			out = []param{{"public-key", vk}}
+			e.ctr++
+			if enc, en, tn, _, ok := reencodeKeyBytes(mustPubBytes(e.v.Pub), p.ClaimEnc-1, e.ctr); ok {
+				out = []param{{"public-key", b64(enc)}}
+				e.labels = append(e.labels, "claim:key-reencoded", "claim:key-reencoded:"+en, "claim:key-reencoded:"+tn)
+			}
 		default:
 			d := mustPubBytes(e.v.Pub)
 			d[len(d)-1-e.ctr%8] ^= 0x10
@@ -554,22 +565,41 @@ func (e *evilServer) RoundTrip(req *http.Request) (*http.Response, error) {
 
 // pubOfServer finds a public key for a returned server ID.
 func (e *evilServer) pubOfServer(x peer.ID) ic.PubKey {
+	// The ID of a key is computed by the harness from the key material (keyenc_test.go): a key sent
+	// in a non-canonical encoding stands for its own ID only, never for an ID of the bytes.
 	for _, id := range []*keys.Identity{e.v, e.a, e.o, e.client} {
-		if id.ID == x {
+		if cid, ok := canonicalID(id.Pub); ok && cid == x {
 			return id.Pub
 		}
 	}
 	if k, err := x.ExtractPublicKey(); err == nil && k != nil {
-		return k
+		if cid, ok := canonicalID(k); ok && cid == x {
+			return k
+		}
 	}
 	for _, d := range e.keysSent {
 		if k, err := ic.UnmarshalPublicKey(d); err == nil {
-			if id, err := peer.IDFromPublicKey(k); err == nil && id == x {
+			if id, ok := canonicalID(k); ok && id == x {
 				return k
 			}
 		}
 	}
 	return nil
+}
+
+// encNote explains a returned ID that is the hash of the bytes of a public-key parameter.
+func (e *evilServer) encNote(x peer.ID) string {
+	for _, d := range e.keysSent {
+		if idOfKeyBytes(d) != x {
+			continue
+		}
+		if k, err := ic.UnmarshalPublicKey(d); err == nil {
+			if cid, ok := canonicalID(k); ok && cid != x {
+				return fmt.Sprintf("\n NOTE: the returned ID is the hash of the BYTES of a public-key parameter as sent, a non-canonical encoding of the key whose peer ID is %s; a peer ID belongs to the key, i.e. to its canonical encoding", cid)
+			}
+		}
+	}
+	return ""
 }
 
 // proven reports whether the call carried a signature that proves identity x to this client:
@@ -677,8 +707,8 @@ func TestClientProvenance(t *testing.T) {
 						}
 						continue
 					}
-					rt.Fatalf("C19 client: returned server ID %s (V=%s A=%s) for host %q without a valid signature by that ID over (a challenge of this call, the client's key, the hostname); ID proven earlier for this host: %q (cached token: %v).\n requests=%v challenges=%q\n plans=%+v\n sigs sent: %s",
-						id, es.v.ID, es.a.ID, host, want, hadToken, es.kinds, es.challenges, cp.Resp[:min(es.n, len(cp.Resp))], describeSigs(es.sigs, es))
+					rt.Fatalf("C19 client: returned server ID %s (V=%s A=%s) for host %q without a valid signature by that ID over (a challenge of this call, the client's key, the hostname); ID proven earlier for this host: %q (cached token: %v).\n requests=%v challenges=%q\n plans=%+v\n sigs sent: %s%s",
+						id, es.v.ID, es.a.ID, host, want, hadToken, es.kinds, es.challenges, cp.Resp[:min(es.n, len(cp.Resp))], describeSigs(es.sigs, es), es.encNote(id))
 				}
 				if !prov {
 					labels = append(labels, "accepted-by-crypto-only")
